@@ -107,7 +107,30 @@ def opSnmStrat (args : Args) : Except String String := do
   if !arms then pure "err emptyArm" else
   pure s!"ok psi={showRat (stratifiedPsi strata)} k={strata.length} fit={showList showRat fitres}"
 
+/-- split a flat list of factor ids at the separator 0 into terms -/
+def splitTerms (l : List Nat) : List (List Nat) :=
+  let r := l.foldr (fun x (acc : List Nat × List (List Nat)) =>
+      if x = 0 then ([], acc.1 :: acc.2) else (x :: acc.1, acc.2)) ([], [])
+  (r.1 :: r.2).filter (fun t => !t.isEmpty)
+
+/-- the H(psi) terms of the search solver for the terms of the structural model (factor names numbered from 1, terms
+    separated by 0, every term closed by a 0): the rewritten terms (`hTerm`), the effect modifiers of each term, and the
+    value of each rewritten term's column in one row whose named values are `vals` (index = name id) and whose scratch
+    column holds `hval` (`termVal (envH ..)`) -/
+def opSnmHTerms (args : Args) : Except String String := do
+  let treat ← need args "treat" parseNat
+  let h ← need args "h" parseNat
+  let terms := splitTerms (← nats args "terms")
+  let vals ← rts args "vals"
+  let hval ← rt args "hval"
+  let env : Nat → Rat := nth vals
+  let flat (ts : List (List Nat)) : List Nat := ts.flatMap (fun t => t ++ [0])
+  let ht := terms.map (hTerm treat h)
+  let mods := terms.map (modifiers treat)
+  let col := ht.map (termVal (envH env h hval))
+  pure s!"ok hterms={showList toString (flat ht)} mods={showList toString (flat mods)} col={showList showRat col}"
+
 def opsC15 : OpTable := [("snm_closed", opSnmClosed), ("snm_esteq", opSnmEstEq), ("snm_strat", opSnmStrat),
-  ("snm_objective", opSnmObjective)]
+  ("snm_objective", opSnmObjective), ("snm_hterms", opSnmHTerms)]
 
 end ZVD
